@@ -10,7 +10,8 @@
 (***************************************************************************)
 EXTENDS EFCorpus, Json
 
-CONSTANT Tier
+CONSTANT Tier,
+         Seed      \* (not used by this corpus: nothing in it is sampled)
 
 VARIABLE row
 vars == <<row>>
